@@ -88,6 +88,9 @@ pub struct Cfg {
     pub segment_scans: bool,
     /// Longest run of boundaries one free scan may span (usize::MAX = any).
     pub max_run: usize,
+    /// C06: per note, Merkle paths are recomputed at all retained checkpoints at or above the note
+    /// (0) or only at the first two, the middle one and the last two of them (n > 0 = that rule).
+    pub witness_subset: usize,
 }
 
 pub struct Ctx<'a> {
@@ -786,6 +789,14 @@ pub fn check_trees(w: &mut Wallet, cx: &Ctx, m: &Model) -> Result<Vec<String>, S
             for (ni, n) in notes.iter().enumerate() {
                 if *h < n.height {
                     continue;
+                }
+                if cx.cfg.witness_subset > 0 {
+                    let eligible: Vec<u32> = ids.iter().copied().filter(|c| *c >= n.height).collect();
+                    let k = eligible.len();
+                    let pick: BTreeSet<u32> = [0usize, 1, k / 2, k.saturating_sub(2), k.saturating_sub(1)].iter().filter_map(|i| eligible.get(*i).copied()).collect();
+                    if !pick.contains(h) {
+                        continue;
+                    }
                 }
                 let unspent = !sp.get(&n.id).map(|v| v.iter().any(|t| mined.contains_key(t))).unwrap_or(false);
                 match wits[ni][i] {
